@@ -541,6 +541,11 @@ func (e *Engine) Explore(fn *ssa.Function, args []Value) *Result {
 		if k < 0 {
 			break
 		}
+		if e.sol.Dead {
+			res.Incomplete = "solver process died"
+			res.Unsupported = appendUniq(res.Unsupported, "solver process died during this exploration")
+			break
+		}
 		if res.Paths >= e.cfg.MaxPaths {
 			res.Incomplete = fmt.Sprintf("path budget %d exhausted", e.cfg.MaxPaths)
 			break
@@ -596,3 +601,6 @@ func (e *Engine) SetMaxPaths(n int) {
 
 // SetValidate switches path sampling for native validation on or off for the next Explore.
 func (e *Engine) SetValidate(on bool) { e.noSamples = !on }
+
+// SolverDead reports whether the engine's solver process has died (the engine must be replaced).
+func (e *Engine) SolverDead() bool { return e.sol.Dead }
